@@ -240,7 +240,7 @@ Section ReaderRoot.
     - destruct (N.eq_dec w0 wd) as [<-|Hn]; [rewrite Hwd by reflexivity; apply pset_eq | rewrite pset_neq; auto].
     - intros q Hq. destruct (bytes_eq_dec q p) as [->|Hn].
       + rewrite wset_eq in Hq. inversion Hq; subst. now apply Hwd.
-      + rewrite wset_neq in Hq by exact Hn. now apply B.
+      + rewrite wset_neq in Hq by exact Hn. apply ReaderFixProofs.unlabel_sub in Hq. now apply B.
     - exact D.
     - exact E0.
   Qed.
